@@ -46,9 +46,9 @@ def push (st : List TypeId) : Tok → List TypeId
   | _ => st
 
 /-- `g index parentType token` holds of every token -/
-def scan (g : Nat → TypeId → Tok → Bool) : Nat → List TypeId → List Tok → Bool
+def scanToks (g : Nat → TypeId → Tok → Bool) : Nat → List TypeId → List Tok → Bool
   | _, _, [] => true
-  | i, st, tok :: r => g i (st.headD 0) tok && scan g (i + 1) (push st tok) r
+  | i, st, tok :: r => g i (st.headD 0) tok && scanToks g (i + 1) (push st tok) r
 
 end MarkGuard
 open MarkGuard
@@ -72,13 +72,13 @@ def addUndoTok (S : Schema) (m : Mark) (p : TypeId) (tok : Tok) : Bool :=
 /-- **exact guard of `removeMarkStep_undo`**: `AddMarkStep(f, t, m)` undoes `RemoveMarkStep(f, t, m)`
     applied to `doc` -/
 def removeMarkUndoable (S : Schema) (doc : Node) (f t : Nat) (m : Mark) : Bool :=
-  scan (fun i p tok => !(decide (f ≤ i) && decide (i < t)) || removeUndoTok S m p tok) 0 [S.tyOf doc]
+  scanToks (fun i p tok => !(decide (f ≤ i) && decide (i < t)) || removeUndoTok S m p tok) 0 [S.tyOf doc]
     (ftoks doc.kids)
 
 /-- **exact guard of `addMarkStep_undo`**: `RemoveMarkStep(f, t, m)` undoes `AddMarkStep(f, t, m)`
     applied to `doc` -/
 def addMarkUndoable (S : Schema) (doc : Node) (f t : Nat) (m : Mark) : Bool :=
-  scan (fun i p tok => !(decide (f ≤ i) && decide (i < t)) || addUndoTok S m p tok) 0 [S.tyOf doc]
+  scanToks (fun i p tok => !(decide (f ≤ i) && decide (i < t)) || addUndoTok S m p tok) 0 [S.tyOf doc]
     (ftoks doc.kids)
 
 /-- at most one mark of type `ty` on the node the token starts -/
@@ -89,7 +89,7 @@ def sameTypeFreeTok (ty : MarkTypeId) (tok : Tok) : Bool :=
     or more marks of type `ty` (`Mark.add_to_set` puts a re-added mark *behind* the other marks of its
     type, so removing and re-adding one of several same-type marks changes their order) -/
 def sameTypeFree (S : Schema) (doc : Node) (f t : Nat) (ty : MarkTypeId) : Bool :=
-  scan (fun i _ tok => !(decide (f ≤ i) && decide (i < t) && tokInline S tok) || sameTypeFreeTok ty tok)
+  scanToks (fun i _ tok => !(decide (f ≤ i) && decide (i < t) && tokInline S tok) || sameTypeFreeTok ty tok)
     0 [S.tyOf doc] (ftoks doc.kids)
 
 /-- no inline node *with content* anywhere in the document (true of every document of the bundled
